@@ -174,7 +174,7 @@ Proof.
   intros g P cfg ord src t alarms Hord Hpi Ht st. unfold fuel_bound.
   apply (visit_terminates_gen g P cfg ord src Hord [[1%positive]]); [|exact Ht|left; reflexivity].
   intros s j cur cd nv Hm Hc Hw [E|[]].
-  left. rewrite (make_next_aps_const g P cfg ord s j cur cd nv Hpi Hm Hc Hw). exact E.
+  left. symmetry. apply (make_next_aps_const g P cfg ord s j cur cd nv Hpi Hm Hc Hw). symmetry. exact E.
 Qed.
 
 (** ** The repaired [addNext] terminates in field-sensitive mode as well *)
@@ -244,23 +244,28 @@ Proof.
   intros s j cur cd nv Hm Hc Hw Hin.
   pose proof (make_next_inv g P cfg ord s j cur cd nv Hm Hc Hw) as (_ & _ & _ & _ & _ & _ & _ & Hn & _).
   destruct Hc as (_ & _ & He).
-  unfold next_aps in Hn. rewrite Hfix in Hn.
+  unfold cand_aps, next_aps in Hn. rewrite Hfix in Hn.
+  assert (forall l, incl l (path_list g) -> In (sort_dedup g l) (lists_upto (path_list g) (length (path_list g)))) as Hsd.
+  { intros l Hl. apply lists_upto_complete.
+    - apply NoDup_incl_length; [apply (rsorted_nodup g); apply sort_dedup_sorted|].
+      intros y Hy. apply Hl. apply sort_dedup_in in Hy. exact Hy.
+    - intros y Hy. apply Hl. apply sort_dedup_in in Hy. exact Hy. }
+  assert (forall io, In io (e_relpath (c_edge cd)) -> In (snd io) (path_list g)) as Hrel.
+  { intros io Hio. destruct He as [E|(n & nd & dst & eis & H1 & H2 & H3)]; [rewrite E in Hio; destruct Hio|].
+    eapply edge_paths_in_list; eauto. }
   destruct (N.eqb (e_nin (c_edge cd)) 0 || (N.eqb (e_nin (c_edge cd)) 1 && e_ee (c_edge cd))).
-  - destruct (v_aps cur); [discriminate|]. injection Hn as <-. exact Hin.
-  - match type of Hn with context [sort_dedup g ?l] => set (comp := l) in * end.
-    destruct (sort_dedup g comp) as [|a l'] eqn:Esd; [discriminate|]. injection Hn as <-. rewrite <- Esd.
-    right. apply lists_upto_complete.
-    + apply NoDup_incl_length; [apply (rsorted_nodup g); apply sort_dedup_sorted|].
-      intros y Hy. apply sort_dedup_in in Hy. unfold comp in Hy.
-      apply in_flat_map in Hy as (io & Hio & Hy). apply (ord_in _ Hord) in Hio.
+  - destruct (same_presum g cur cd).
+    + injection Hn as <-. left. reflexivity.
+    + destruct (v_aps cur); [discriminate|]. injection Hn as <-. exact Hin.
+  - match type of Hn with context [sort_dedup g (flat_map ?f ?l)] => set (comp := flat_map f l) in * end.
+    assert (incl comp (path_list g)) as Hcomp.
+    { intros y Hy. unfold comp in Hy. apply in_flat_map in Hy as (io & Hio & Hy). apply (ord_in _ Hord) in Hio.
       apply in_flat_map in Hy as (ap & _ & Hy). destruct (g_pfx g (fst io) ap); [|destruct Hy].
-      destruct Hy as [<-|[]].
-      destruct He as [E|(n & nd & dst & eis & H1 & H2 & H3)]; [rewrite E in Hio; destruct Hio|].
-      eapply edge_paths_in_list; eauto.
-    + intros y Hy. apply sort_dedup_in in Hy. unfold comp in Hy.
-      apply in_flat_map in Hy as (io & Hio & Hy). apply (ord_in _ Hord) in Hio.
-      apply in_flat_map in Hy as (ap & _ & Hy). destruct (g_pfx g (fst io) ap); [|destruct Hy].
-      destruct Hy as [<-|[]].
-      destruct He as [E|(n & nd & dst & eis & H1 & H2 & H3)]; [rewrite E in Hio; destruct Hio|].
-      eapply edge_paths_in_list; eauto.
+      destruct Hy as [<-|[]]. apply Hrel. exact Hio. }
+    destruct (sort_dedup g comp) as [|a l'] eqn:Esd.
+    + destruct (N.ltb 0 (e_nin (c_edge cd)) && negb (g_labelled g (edge_source cur cd))); [|discriminate].
+      destruct (sort_dedup g (map snd (e_relpath (c_edge cd)))) as [|b l''] eqn:Esd2; [discriminate|].
+      injection Hn as <-. rewrite <- Esd2. right. apply Hsd.
+      intros y Hy. apply in_map_iff in Hy as (io & <- & Hio). apply Hrel. exact Hio.
+    + injection Hn as <-. rewrite <- Esd. right. apply Hsd. exact Hcomp.
 Qed.
